@@ -101,6 +101,9 @@ func fmtAvoid(t *rapid.T) map[string]bool {
 			av[f] = true
 		}
 	}
+	if os.Getenv("VERIF_NOAVOID") == "1" { // development aid (survey of known-finding triggers): avoid nothing
+		av = map[string]bool{}
+	}
 	// development aid: VERIF_AVOID forces features off completely
 	for _, f := range strings.Split(os.Getenv("VERIF_AVOID"), ",") {
 		if f != "" {
@@ -288,6 +291,9 @@ func checkC03(raw json.RawMessage) iso.Result {
 	feats.inlineLineComment = hasInlineLineComment(c)
 	if feats.inlineLineComment {
 		col.Label("feat:inline-line-comment")
+		feats.healedByBlockComments = func() bool {
+			return lineCommentFindingApplies(c, func(src string) bool { return c03Holds(src, c.Conf) })
+		}
 	}
 	r := runFormat(v, c.Conf)
 	switch {
@@ -360,6 +366,112 @@ type fmtFeat struct {
 	want, got string
 	// a `#`/`//` comment sits at a placeholder inside a statement or declaration header
 	inlineLineComment bool
+	// healedByBlockComments re-runs the check on the variant of the case in which those comments are block comments
+	healedByBlockComments func() bool
+}
+
+// lineCommentSafeCtx: placeholders at which the formatter of the tree the finding was recorded on handles a
+// `#`/`//` comment correctly (it prints the `else` keyword on a new line): a failure of a case whose inline
+// line comments all sit there is not covered by the known finding fmt.line-comment-at-inline-placeholder.
+var lineCommentSafeCtx = gen.LineCommentSafeCtx
+
+// lineCommentFindingApplies: the known finding explains a failure of the case when (a) the same case with the
+// inline `#`/`//` comments written as block comments holds (causal test), and (b) at least one of those
+// comments sits at a placeholder that is not known to be handled correctly.
+func lineCommentFindingApplies(c FmtCase, holds func(src string) bool) bool {
+	unsafe := false
+	for _, pc := range c.Comments {
+		if isInlineLineComment(pc) && !lineCommentSafeCtx[pc.Ctx] {
+			unsafe = true
+		}
+	}
+	if !unsafe {
+		return false
+	}
+	all, ok := inlineLineCommentsAsBlocks(c, -1)
+	return ok && holds(all)
+}
+
+// hasUnsafeInlineLineComment: some `#`/`//` comment sits at an inline placeholder that is not known to be handled correctly.
+func hasUnsafeInlineLineComment(c FmtCase) bool {
+	for _, pc := range c.Comments {
+		if isInlineLineComment(pc) && !lineCommentSafeCtx[pc.Ctx] {
+			return true
+		}
+	}
+	return false
+}
+
+// c14Holds: formatting twice gives the same text, or what differs is attributed to another known root cause.
+func c14Holds(src string, conf FmtConf) bool {
+	v, err := parseVCL(src)
+	if err != nil {
+		return false
+	}
+	r1 := runFormat(v, conf)
+	if r1.panic != "" || r1.nilRd {
+		return false
+	}
+	v2, err := parseVCL(r1.out)
+	if err != nil {
+		return false
+	}
+	r2 := runFormat(v2, conf)
+	if r2.panic != "" || r2.nilRd {
+		return false
+	}
+	return r1.out == r2.out || idemKey(FmtCase{Src: src, Conf: conf}, r1.out, r2.out) != ""
+}
+
+func isInlineLineComment(pc FmtComment) bool {
+	k := gen.SlotKind(pc.Slot)
+	return (strings.HasPrefix(pc.Text, "#") || strings.HasPrefix(pc.Text, "//")) && (k == gen.SNone || k == gen.SExpr || k == gen.SInfix)
+}
+
+// inlineLineCommentsAsBlocks rewrites the `#`/`//` comments at inline placeholders as block comments,
+// except the one with index keep (-1: none is kept).
+func inlineLineCommentsAsBlocks(c FmtCase, keep int) (string, bool) {
+	src := c.Src
+	for i, pc := range c.Comments {
+		if !isInlineLineComment(pc) || i == keep {
+			continue
+		}
+		body := strings.TrimLeft(pc.Text, "#/")
+		if strings.Contains(body, "*/") || strings.Count(src, pc.Text+"\n") != 1 {
+			return "", false
+		}
+		src = strings.Replace(src, pc.Text+"\n", "/*"+body+" */\n", 1)
+	}
+	return src, true
+}
+
+// c03Holds: the C03 oracle on one source: formats, parses again, same normal form — or the failure
+// that remains is attributed to another known root cause by its own classifier.
+func c03Holds(src string, conf FmtConf) bool {
+	v, err := parseVCL(src)
+	if err != nil {
+		return false
+	}
+	want, werr := normalizedDump(v, conf)
+	if werr != nil {
+		return false
+	}
+	r := runFormat(v, conf)
+	if r.panic != "" || r.nilRd {
+		return false
+	}
+	v2, err := parseVCL(r.out)
+	if err != nil {
+		return false
+	}
+	got, gerr := normalizedDump(v2, conf)
+	if gerr != nil {
+		return false
+	}
+	if got == want {
+		return true
+	}
+	return fmtKey(fmtFeat{src: src, v: v, want: want, got: got}, "diff", "") != ""
 }
 
 func hasInlineLineComment(c FmtCase) bool {
@@ -416,7 +528,9 @@ func condHasMultilineString(ss []ast.Statement) bool {
 // fmtKey: classifier of known formatter findings = feature predicate on the
 // input ∧ signature predicate on the failure.
 func fmtKey(f fmtFeat, sig, detail string) string {
-	if (sig == "diff" || sig == "unparseable") && f.inlineLineComment {
+	if (sig == "diff" || sig == "unparseable") && f.inlineLineComment && f.healedByBlockComments != nil && f.healedByBlockComments() {
+		// causal test: with the inline `#`/`//` comments written as `/* */` comments the same program
+		// formats correctly, so the line comments at inline placeholders are what breaks it
 		return "fmt.line-comment-at-inline-placeholder"
 	}
 	if sig == "diff" && f.want != "" && condHasMultilineString(f.v.Statements) {
@@ -497,7 +611,7 @@ func sortedLines(s string) string {
 // idemKey: classifier of known idempotence findings = feature predicate on the
 // case ∧ signature predicate on the pair of outputs.
 func idemKey(c FmtCase, out1, out2 string) string {
-	if hasInlineLineComment(c) {
+	if hasInlineLineComment(c) && lineCommentFindingApplies(c, func(src string) bool { return c14Holds(src, c.Conf) }) {
 		return "fmt.line-comment-at-inline-placeholder"
 	}
 	if out2 == "" {
@@ -660,7 +774,7 @@ func checkC15(raw json.RawMessage) iso.Result {
 	if len(lost) > 0 || len(dup) > 0 {
 		key := ""
 		switch {
-		case hasInlineLineComment(c):
+		case hasUnsafeInlineLineComment(c):
 			key = "fmt.line-comment-at-inline-placeholder"
 		default:
 			// multi-line block comments whose continuation lines were re-indented:
@@ -693,7 +807,7 @@ func checkC15(raw json.RawMessage) iso.Result {
 		for i := range nin {
 			if nin[i] != nout[i] {
 				okey := ""
-				if hasInlineLineComment(c) {
+				if hasUnsafeInlineLineComment(c) {
 					okey = "fmt.line-comment-at-inline-placeholder"
 				}
 				col.FailKey(okey, "formatting reordered comments: position %d is %q (placeholder %s), was %q (placeholder %s)\n--- config ---\n%+v\n--- source ---\n%s\n--- formatted ---\n%s", i, nout[i], ctxOf[nout[i]], nin[i], ctxOf[nin[i]], c.Conf, c.Src, r.out)
@@ -716,4 +830,3 @@ func checkC15(raw json.RawMessage) iso.Result {
 	}
 	return col.Done()
 }
-
